@@ -577,7 +577,7 @@ pub fn tape_checks(_ctx: &Ctx) -> Vec<(&'static str, Box<CheckFn<'_>>)> {
 
 pub fn budget(name: &str) -> (u32, u32, usize) {
 	match name {
-		"random-scripts" => (60_000, 20, 64),
+		"random-scripts" => (400_000, 10, 64),
 		_ => (0, 1, 4),
 	}
 }
@@ -599,7 +599,7 @@ pub fn run(ctx: &Ctx) -> (Level, Report) {
 		report.stats.extra.insert("asan_cases".into(), json!("not run: PSC_VERIF_ASAN_EXE unset"));
 	}
 	report.exhaustive = true;
-	report.stats.extra.insert("enumerated_cases".into(), json!(n_cases()));
+	// (the parent never decodes anything itself: a double free would take the driver down with it)
 	(
 		Level {
 			level: "fault_enumeration",
